@@ -112,6 +112,13 @@ PROPS = {
         thorough=[mc('mc_pages', 'all', 'sc', P=3, E=1, budget=1500), mc('mc_pages', '0-4,7,8', 'tso', P=2, D=1, E=0, budget=900)],
         oracle='ownership map over a recording upstream whose pages are never reused: nothing handed out that another caller holds or that was already returned upstream, nothing returned twice or while held; at quiescence obtained - returned = held + cached; destruction returns the cache; strict pool: outstanding <= injected and blocked pops resume (deadlock detector); auto pool: recycler once per return, overflow destroyed, nothing leaked',
     ),
+    'C19': dict(
+        title='counters / enumerable thread locals: aggregates exact across thread and instance churn',
+        quick=[mc('mc_counter', 'all', 'sc', P=2, E=0, budget=150)],
+        thorough=[mc('mc_counter', 'all', 'sc', P=3, E=1, budget=900), mc('mc_counter', '0,2,7', 'tso', P=2, D=1, E=0, budget=600)],
+        oracle='exact sum / sum+count / extreme at every quiescent read over generations of threads (slot reuse) and generations of counter instances (storage reuse, moves); values chosen from {min,-1,0,1,max}; local() identity and privacy; for_each covers every slot ever used, for_each_alive exactly the live ones (both overloads); concurrent read bounded by completed-before / started-before contributions',
+        assumptions=['histories of thread births/deaths and instance create/destroy/move are enumerated through data choices (bbmc::choose) up to 4 steps'],
+    ),
 }
 
 SEQX_ASSUMPTIONS = [
